@@ -6,7 +6,7 @@ import sys
 from harness import seams  # noqa
 from harness.runner import Check, merge_stats, jdec
 from harness.explorer import Explorer
-from harness.world import State, ep_snapshot, canon, HarnessError
+from harness.world import State, ep_snapshot, canon, HarnessError, REQ_SENT_STATES
 from harness import protocol as P
 from harness import scenarios as S
 
@@ -228,6 +228,29 @@ def sm_status(world):
             yield ('M-status', 'status-changes-state', 'status query changed the table')
 
 
+def sm_ended_removed(world):
+    """an IKE_SA that ends is removed: once nothing is in flight, let every retransmission timer run out (lossless
+    from here on); afterwards the table must not hold an IKE_SA that is deleted or still waiting for a response"""
+    if world.net or not all(P.live(e) for e in world.endpoints.values()):
+        return
+    if not any(s.state != State.ESTABLISHED for e in world.endpoints.values() for s in e.controller.ike_sas):
+        return
+    w, status = P.drain(world, horizon=120.0)
+    if status in ('max_steps', 'horizon'):
+        stuck = [(n, s.my_spi.hex(), s.state.name) for n, e in sorted(w.endpoints.items()) if e.alive
+                 for s in e.controller.ike_sas if s.state in REQ_SENT_STATES]
+        yield ('M-tab', 'never-ends:%s' % ','.join(sorted({x[2] for x in stuck})),
+               'with no further loss the table still holds %r after every time-out should have run' % (stuck,))
+        return
+    for n, e in sorted(w.endpoints.items()):
+        if not e.alive:
+            continue
+        for s in e.controller.ike_sas:
+            if s.state in REQ_SENT_STATES or s.state == State.DELETED:
+                yield ('M-tab', 'ended-but-listed:%s' % s.state.name,
+                       '%s still lists IKE_SA %s in state %s after quiescence' % (n, s.my_spi.hex(), s.state.name))
+
+
 def m_dead(pre, ev, post):
     # an endpoint that dies is C17's subject; C16 only makes sure it is not silently ignored here
     return ()
@@ -319,7 +342,7 @@ def representative_worlds():
 def run_scenario(i):
     sc = SCENARIOS[i]
     ex = Explorer(lambda: build(sc['name'], sc['params']), enabled_for(sc), P.apply_event, monitors=MONITORS,
-                  state_monitors=[sm_status], extra_fn=P.budget_key,
+                  state_monitors=[sm_status] + ([sm_ended_removed] if sc['timeouts'] else []), extra_fn=P.budget_key,
                   abstraction_checks=30 if ck.quick else 100, replay_every=50 if ck.quick else 200,
                   max_states=(6000 if ck.quick else 400000), label='%s/%s' % (sc['name'], ','.join(sc['kinds'])))
     ex.run()
